@@ -9,6 +9,7 @@ use std::panic::{catch_unwind, AssertUnwindSafe};
 mod ord;
 mod ua;
 mod mf;
+mod wire;
 
 pub fn parse_ints(toks: &[&str]) -> Vec<i64> {
     toks.iter().map(|t| t.parse::<i64>().expect("int")).collect()
@@ -60,6 +61,7 @@ fn main() {
             "ord" => ord::run(&toks),
             "ua" => ua::run(&toks),
             "mf" => mf::run(&toks),
+            "wire" => wire::run(&toks),
             g => panic!("unknown group {}", g),
         }));
         match r {
